@@ -259,6 +259,10 @@ def classify(check, linemap, crate_src_dir, extracted_lines):
         if re.search(r'attempt to .* with overflow|index out of bounds|unwrap', desc) and not desc.startswith('SPEC'):
             d.update(kind='harness-internal', attributed=False, text='%s @ %s:%s' % (desc, base, check.line)); return d
         d.update(kind='harness-assertion', attributed=True, text='assert: %s' % desc, where='%s:%s' % (base, check.line)); return d
+    if 'slice_index_fail' in (check.func or '') or re.search(r'core/src/slice/index\.rs$', f):
+        # core's slice range panic (runtime-formatted message): a real panic reached from the code under test
+        d.update(kind='model-panic-standing-for-real-panic', attributed=True, text='panic: slice index / range out of bounds (core::slice::index, reached from the extracted text)',
+                 where='%s:%s' % (base, check.line)); return d
     for pat in DELIBERATE_PANICS:
         if re.search(pat, desc):
             d.update(kind='model-panic-standing-for-real-panic', attributed=True, text='panic: %s (in %s)' % (desc, check.func or base),
